@@ -921,7 +921,7 @@ async fn takeover_body(stack: Stack, case: &TakeoverCase) -> R<()> {
 // C16 — the will decision logic of remote()
 // =======================================================================================
 
-pub const C16_E5_RULE: &str = "E5: a real connection task (v4 or v5 listener) whose CONNECT registers a will (topic w/a or w/b, 1-8 byte payload, QoS 0-2, optionally retained; v5 optionally with a will-delay property and no session expiry, i.e. effective delay 0, and further will properties) or no will; 0-3 packets are exchanged; the connection then ends by DISCONNECT (then close, or wait for the broker's close), by dropping the stream (after CONNACK, after a PUBLISH that was not yet acknowledged, in the middle of a packet), by a malformed packet, by a router-initiated close (unsolicited PUBACK / PUBREC / PUBCOMP / PUBREL, v5 PUBLISH with topic alias 0, SUBSCRIBE to a $-filter) or (thorough tier) by keep-alive expiry. An observer (v4 or v5) holds ONE subscription (w/a, w/b, w/+ or w/#). After the connection task was joined a controller publishes a sentinel on a topic of that filter; the observer must have received, before the sentinel, exactly one copy of the will (topic, payload) iff a will was registered, no DISCONNECT was sent and the topic matches the filter, and nothing otherwise. A late subscriber (of the other protocol version than the observer) then receives the retained copy iff the will fired with retain set. Regions F1 (stream dropped before the CONNACK could be written) and F3 (DISCONNECT sent while a write towards the client is pending or failing: the subject never subscribes, so nothing is owed to it when it disconnects) are excluded by construction and probed separately. In a fifth of the cases with a client-side end the router is backed up at that moment (it takes no turns and its event channel is filled up to one free slot with work-less wake-ups, released by a helper thread once the channel has been full for 10 ms): what remote() hands to the router has to wait for capacity and must not be dropped. Takeovers are not generated. Non-trivial: will registered, matching observer, end other than DISCONNECT.";
+pub const C16_E5_RULE: &str = "E5: a real connection task (v4 or v5 listener) whose CONNECT registers a will (topic w/a or w/b, 1-8 byte payload, QoS 0-2, optionally retained; v5 optionally with a will-delay property and no session expiry, i.e. effective delay 0, and further will properties) or no will; 0-3 packets are exchanged; the connection then ends by DISCONNECT (then close, or wait for the broker's close), by dropping the stream (after CONNACK, after a PUBLISH that was not yet acknowledged, in the middle of a packet), by a malformed packet, by a router-initiated close (unsolicited PUBACK / PUBREC / PUBCOMP / PUBREL, v5 PUBLISH with topic alias 0, SUBSCRIBE to a $-filter) or (thorough tier) by keep-alive expiry. An observer (v4 or v5) holds ONE subscription (w/a, w/b, w/+ or w/#). After the connection task was joined a controller publishes a sentinel on a topic of that filter; the observer must have received, before the sentinel, exactly one copy of the will (topic, payload) iff a will was registered, no DISCONNECT was sent and the topic matches the filter, and nothing otherwise. A late subscriber (of the other protocol version than the observer) then receives the retained copy iff the will fired with retain set. Regions F1 (stream dropped before the CONNACK could be written), F3 (DISCONNECT sent while a write towards the client is pending or failing: the subject never subscribes, so nothing is owed to it when it disconnects) and F4 (an earlier connection of the same client id that ended with DISCONNECT is still waiting out a will delay when the subject connects with a clean start) are excluded by construction and probed separately. In a fifth of the cases with a client-side end the router is backed up at that moment (it takes no turns and its event channel is filled up to one free slot with work-less wake-ups, released by a helper thread once the channel has been full for 10 ms): what remote() hands to the router has to wait for capacity and must not be dropped. Takeovers are not generated. Non-trivial: will registered, matching observer, end other than DISCONNECT.";
 
 const WILL_TOPICS: [&str; 2] = ["w/a", "w/b"];
 /// (filter, topic on which the controller publishes sentinels)
@@ -985,6 +985,11 @@ pub struct C16Case {
     /// connection ends (client-side ends only): what `remote()` hands over has to wait
     #[serde(default)]
     pub backed_up: bool,
+    /// an earlier connection of the same client id through the same listener (v5, a will with a
+    /// delay of one hour, session expiry one hour) that ended with DISCONNECT: its will is void,
+    /// but its connection task is still waiting out the delay when the subject connects
+    #[serde(default)]
+    pub predecessor: bool,
 }
 
 fn will_spec() -> BoxedStrategy<WillSpec> {
@@ -1032,9 +1037,9 @@ fn c16_case(keepalive: bool) -> BoxedStrategy<C16Case> {
         prop_oneof![5 => will_spec().prop_map(Some), 1 => Just(None)],
         prop::collection::vec(0u8..3, 0..=3),
         end_strategy(keepalive),
-        (prop::bool::weighted(0.5), prop::bool::weighted(0.2)),
+        (prop::bool::weighted(0.5), prop::bool::weighted(0.2), prop::bool::weighted(0.15)),
     )
-        .prop_map(|(seed, ver, obs_ver, obs_filter, obs_qos, mut will, pre, end, (late_subscriber, backed_up))| {
+        .prop_map(move |(seed, ver, obs_ver, obs_filter, obs_qos, mut will, pre, end, (late_subscriber, backed_up, predecessor))| {
             if let Some(w) = will.as_mut() {
                 if ver == Ver::V4 {
                     w.delay = None;
@@ -1042,7 +1047,8 @@ fn c16_case(keepalive: bool) -> BoxedStrategy<C16Case> {
                 }
             }
             let client_side = matches!(end, End::Disconnect { .. } | End::DisconnectProps { .. } | End::Close | End::CloseAfterPublish { .. } | End::CloseMidPacket { .. });
-            C16Case { seed, ver, obs_ver, obs_filter, obs_qos, will, pre, end, late_subscriber, backed_up: backed_up && client_side }
+            let predecessor = predecessor && ver == Ver::V5 && !keepalive && end != End::CloseBeforeConnack;
+            C16Case { seed, ver, obs_ver, obs_filter, obs_qos, will, pre, end, late_subscriber, backed_up: backed_up && client_side, predecessor }
         })
         .boxed()
 }
@@ -1055,6 +1061,9 @@ pub enum C16Mode {
     ProbeF1,
     /// inside region F3: DISCONNECT while the connection task is blocked in a write
     ProbeF3,
+    /// inside region F4: an earlier connection of the same client id is still waiting out a
+    /// will delay when the subject connects (clean start)
+    ProbeF4,
 }
 
 pub struct C16Wills {
@@ -1063,6 +1072,8 @@ pub struct C16Wills {
 
 pub const F1_SIGNATURE: &str = "will_not_published:CloseBeforeConnack";
 pub const F3_SIGNATURE: &str = "will_published_unexpectedly:after_disconnect";
+/// F4: the predecessor's PublishWill publishes the will the subject has just registered
+pub const F4_SIGNATURE_A: &str = "will_published_unexpectedly:after_disconnect";
 
 impl Campaign for C16Wills {
     type Case = C16Case;
@@ -1072,12 +1083,14 @@ impl Campaign for C16Wills {
             C16Mode::KeepAlive => "e5_will_keepalive",
             C16Mode::ProbeF1 => "e5_probe_f1_close_before_connack",
             C16Mode::ProbeF3 => "e5_probe_f3_disconnect_while_write_blocked",
+            C16Mode::ProbeF4 => "e5_probe_f4_predecessor_waiting_out_will_delay",
         }
     }
     fn cases(&self, tier: Tier) -> u64 {
         match self.mode {
             C16Mode::Main => tier.pick(3000, 40_000),
             C16Mode::KeepAlive => tier.pick(0, 48),
+            C16Mode::ProbeF4 => tier.pick(400, 4000),
             _ => tier.pick(40, 200),
         }
     }
@@ -1085,6 +1098,7 @@ impl Campaign for C16Wills {
         match self.mode {
             C16Mode::ProbeF1 => vec![F1_SIGNATURE],
             C16Mode::ProbeF3 => vec![F3_SIGNATURE],
+            C16Mode::ProbeF4 => vec![F4_SIGNATURE_A],
             _ => vec![],
         }
     }
@@ -1095,12 +1109,24 @@ impl Campaign for C16Wills {
                 match mode {
                     C16Mode::ProbeF1 => {
                         c.backed_up = false;
+                        c.predecessor = false;
                         c.end = End::CloseBeforeConnack;
                         c.will.get_or_insert(w);
                         c.obs_filter = 1; // w/# matches every will topic
                     }
+                    C16Mode::ProbeF4 => {
+                        c.ver = Ver::V5;
+                        c.backed_up = false;
+                        c.predecessor = true;
+                        c.will.get_or_insert(w);
+                        c.obs_filter = 1;
+                        if matches!(c.end, End::CloseBeforeConnack | End::KeepAlive | End::DisconnectWhileWriteBlocked) {
+                            c.end = End::Close;
+                        }
+                    }
                     C16Mode::ProbeF3 => {
                         c.backed_up = false;
+                        c.predecessor = false;
                         c.end = End::DisconnectWhileWriteBlocked;
                         c.will.get_or_insert(w);
                         c.obs_filter = 1;
@@ -1121,6 +1147,12 @@ impl Campaign for C16Wills {
                 case.end = End::Close;
                 obs.count("excluded_f1_close_before_connack_replaced_by_close", 1);
             }
+            // known-finding region F4 (an earlier connection of the same client id still waiting
+            // out a will delay when the subject connects), excluded by construction
+            if case.predecessor {
+                case.predecessor = false;
+                obs.count("excluded_f4_predecessor_waiting_out_will_delay_removed", 1);
+            }
             // known-finding region F3 (a write towards the subject pending or failing when it
             // disconnects) is excluded by construction: the generator never yields
             // DisconnectWhileWriteBlocked unless the switch is on, and in every other history
@@ -1133,6 +1165,7 @@ impl Campaign for C16Wills {
         let polite = matches!(case.end, End::Disconnect { .. } | End::DisconnectProps { .. } | End::DisconnectWhileWriteBlocked);
         obs.class_if(case.will.is_some(), "will_registered");
         obs.class_if(case.backed_up, "router_backed_up_at_the_end");
+        obs.class_if(case.predecessor, "predecessor_task_waiting_out_a_will_delay");
         obs.class_if(polite, "end_disconnect");
         obs.class_if(case.will.is_some() && !polite && matching, "will_expected");
         obs.class_if(case.will.is_some() && !matching, "observer_not_matching");
@@ -1183,7 +1216,36 @@ async fn c16_body(stack: Stack, case: &C16Case, late_ver: Ver) -> R<()> {
     observer.subscribe_wait(1, filter, case.obs_qos, None).await?;
     let mut controller = stack.connect("controller", &Listener::plain(Ver::V4), "c16-controller").await?;
 
-    let mut x = stack.open("subject", &Listener::plain(case.ver));
+    // one listener for the subject and its predecessor: the will bookkeeping of `remote()` is
+    // per listener
+    let subject_listener = Listener::plain(case.ver);
+    if case.predecessor {
+        let mut p = stack.open("predecessor", &subject_listener);
+        let mut props = Props::default();
+        props.session_expiry = Some(3600);
+        let mut wprops = Props::default();
+        wprops.will_delay = Some(3600);
+        p.send_packet(&M::Connect(md::Connect {
+            keep_alive: 600,
+            client_id: Txt::lit("c16-subject"),
+            clean: true,
+            will: Some(md::Will { topic: Txt::lit(WILL_TOPICS[0]), message: Bin::Lit(b"predecessor-will".to_vec()), qos: 0, retain: false, props: wprops }),
+            login: None,
+            props,
+        }))
+        .await?;
+        match p.next().await? {
+            Some(M::ConnAck(a)) if a.code == 0 => {}
+            other => s_fail!("helper_connection_not_admitted", "predecessor CONNECT answered {other:?}"),
+        }
+        // DISCONNECT, then wait for the broker to close the stream: the router has dropped the
+        // connection and removed the will; the task now waits out the will delay
+        p.send_packet(&M::Disconnect(md::Disconnect { reason: 0, props: Props::default() })).await?;
+        p.read_to_end().await?;
+        p.close();
+        std::mem::forget(p);
+    }
+    let mut x = stack.open("subject", &subject_listener);
     let keep_alive = if case.end == End::KeepAlive { 1 } else { 600 };
     x.send_packet(&will_connect(case, keep_alive)).await?;
     if case.end == End::CloseBeforeConnack {
@@ -1394,6 +1456,7 @@ pub fn c16_campaigns() -> Vec<Box<dyn DynCampaign>> {
         Box::new(C16Wills { mode: C16Mode::KeepAlive }),
         Box::new(C16Wills { mode: C16Mode::ProbeF1 }),
         Box::new(C16Wills { mode: C16Mode::ProbeF3 }),
+        Box::new(C16Wills { mode: C16Mode::ProbeF4 }),
     ]
 }
 
